@@ -82,9 +82,15 @@ func (H) Generate(r *simrt.Rand, tier string) any {
 		s.Kind = "pool"
 		s.WithNew = r.Intn(4) != 0
 		s.Preput = r.Intn(3)
+		cycles := 3
+		if r.Intn(6) == 0 {
+			// batching or chunking inside a pool only shows with tens of idle items
+			s.Preput = 8 + r.Intn(40)
+			cycles = 12
+		}
 		for i := 0; i < 2+r.Intn(3); i++ {
 			var c []Op
-			for j := 0; j < 1+r.Intn(3); j++ {
+			for j := 0; j < 1+r.Intn(cycles); j++ {
 				c = append(c, Op{K: "getput", Use: r.Intn(3)})
 			}
 			s.Clients = append(s.Clients, c)
@@ -94,6 +100,7 @@ func (H) Generate(r *simrt.Rand, tier string) any {
 	s.Kind = []string{"int", "string", "struct"}[r.Intn(3)]
 	next := 0
 	var stored []int
+	dup := r.Intn(4) == 0 // values from a tiny set: equal values written by different calls
 	for i := 0; i < 2+r.Intn(3); i++ {
 		var c []Op
 		for j := 0; j < 1+r.Intn(5); j++ {
@@ -102,16 +109,22 @@ func (H) Generate(r *simrt.Rand, tier string) any {
 			case "store", "swap":
 				next++
 				o.V = next
-				stored = append(stored, next)
+				if dup {
+					o.V = 1 + r.Intn(2)
+				}
+				stored = append(stored, o.V)
 			case "cas":
 				next++
 				o.V = next
+				if dup {
+					o.V = 1 + r.Intn(2)
+				}
 				if len(stored) > 0 && r.Intn(4) != 0 {
 					o.Old = stored[r.Intn(len(stored))]
 				} else {
 					o.Old = 0 // the zero value: never equal to a stored value
 				}
-				stored = append(stored, next)
+				stored = append(stored, o.V)
 			}
 			c = append(c, o)
 		}
